@@ -5,6 +5,7 @@ listener -> TLS -> {net/http | http2 fork} chain; values read at the recording b
 """
 import rwcommon as rw
 import vf
+import wiring
 
 
 def classify(sc, kind, key):
@@ -15,7 +16,9 @@ def run(ctx):
     scs = rw.scenarios(ctx, {'fwd'})
     obs = rw.replay(ctx, scs)
     n, samples = rw.judge(ctx, scs, obs, ['X-Forwarded-For', 'X-Forwarded-Host', 'X-Forwarded-Proto', 'Forwarded', 'host'], classify)
-    cov = rw.coverage(ctx, scs, n, samples,
+    wsc, wobs = wiring.replay_rewrite(ctx, scs, limit=100)
+    nw, _ = rw.judge(ctx, wsc, wobs, ['X-Forwarded-For', 'X-Forwarded-Host', 'X-Forwarded-Proto', 'Forwarded', 'host'], lambda sc, kind, key: {'via': 'real_wiring'}) if wsc else (0, [])
+    cov = rw.coverage(ctx, scs, n + nw, samples,
                       'one scenario per initial state of family "fwd": protocol x PreserveHost x Host x up to MaxLines client '
                       'X-Forwarded-*/Forwarded lines; peer address is 127.0.0.1 (loopback clients)')
     return ctx.finish(cov, assumptions=['HTTP/2 requests use :scheme https (a client-chosen :scheme of http is outside the quantifier)'])
